@@ -341,6 +341,17 @@ def run(ctx, ck):
         ck.ob('R-EXH.rows', '%s|section %s' % (f.qual, sname), counts == [1], f.loc(),
               'section written exactly once on every path' if counts == [1] else
               'section written %s times depending on the path' % counts)
+    # values the writers take from a cache kept on the model: the cache must not outlive the solution it was
+    # computed from (rule shared with C14; only the caches in the closure of the report writers)
+    from .C14 import run_cache_rule
+    from ..cache import find_memo_sites
+    ck.rule('R-CACHE.invalidate', 'a cache the report reads is dropped by every function that assigns the state it was computed from')
+    wclosure = prog.closure(list(writers), edge_filter=lambda e: e.kind in ('call', 'getter'))
+    keys_ = {s_.key for s_ in find_memo_sites(m, ctx) if s_.func.qual in wclosure and s_.owner == 'self' and
+             s_.kind in ('attr-none', 'getattr-none')}
+    if keys_:
+        run_cache_rule(ctx, ck, only=keys_)
+    ck.info('report_caches', sorted(keys_))
     # the source block: every labelled line prints that quantity of the source the block belongs to
     ck.rule('R-DEP.labelled-value', 'a line labelled VOLTAGE / CURRENT / IMPEDANCE / POWER prints that quantity of its own source')
     from ..symx import unwrap_formatted, leading_literal, fold_text
